@@ -13,6 +13,11 @@ CHECKS = {
             "partners for two-operand pairs in quick, full 68x68 in thorough); each emitted statement is decoded by an independent decoder "
             "written from the handbook and compared with the abstract instruction, including emitted length.",
             "Trusts the handbook-derived decoder in vlib/pdp11_ref.py; ~25 non-DEC mnemonics are compared with a frozen transcription only.", "3 C01"),
+    "C02": ("exploration", "invariant over the H1 hook trace (statement, address given, chunk produced) + reference-layout comparison with probe tables + corpus golden images",
+            "A model-free invariant is asserted on the hook trace of every error-free run: bytes at the address a statement was given are the bytes "
+            "it produced, blocks are contiguous, labels sit at the next statement, linked files tile the image. Generated programs are also compared "
+            "with an independent reference layout, and the 21 practice programs with their committed images.",
+            "The hook (PDPY11_VERIF=1) is trusted to report what compile_block did; sampling of an unbounded program space.", "3 C02"),
     "C04": ("exploration", "outcome classifier + independent decoder over one-branch programs (exhaustive mnemonic x offset) and generated relative-operand programs",
             "Exhaustive over branch mnemonic x byte offset (both limits bracketed) with the distance realised several ways; every accepted "
             "branch is decoded and its effective target recomputed, every rejected one must fail with branch-out-of-bounds/odd-branch on the "
